@@ -266,3 +266,47 @@ def check(case):
     return engine.ok(a != b and has_gap, cl, {"a": a[:60], "b": b[:60], "lens": [len(a), len(b)], "params": [setn, gpo, gpe, tgpe],
                                               "groups": [k, l], "margin": min(cert["m_same"], cert["m_diff"]), "need": need,
                                               "opt": [want_a[:70], want_b[:70]]})
+
+
+# ------------------------------------------------------------------ enumerated: overhangs x kernels
+
+def extra(tier, seed, stats):
+    """Terminal overhangs, enumerated: a shared core of 20 / 60 / 150 residues (5 % substitutions, one internal indel), an
+    overhang of 3 / 10 / 40 / 120 residues at the start or the end of either sequence, every kernel (1x1, 1x2, 2x1, 2x2, 2x3,
+    3x2), both kinds, the type's defaults and one set of user penalties with cheap terminal gaps: the same oracle as the
+    generated cases (only certified unique optima are judged)."""
+    from concurrent.futures import ThreadPoolExecutor
+    cases_ = []
+    rnd = random.Random(seed * 17 + 3)
+    for kind, alpha, types in (("dna", gen.NUC, [0, 2]), ("protein", gen.AA, [3, 4])):
+        for core_len in (20, 60, 150):
+            for oh in (3, 10, 40, 120):
+                for side in range(4):
+                    core = "".join(rnd.choice(alpha) for _ in range(core_len))
+                    c2 = list(core)
+                    for _ in range(max(1, core_len // 20)):
+                        c2[rnd.randrange(core_len)] = rnd.choice(alpha)
+                    p = rnd.randrange(3, core_len - 3)
+                    c2[p:p] = [rnd.choice(alpha) for _ in range(rnd.choice([1, 2, 4]))] if side % 2 else []
+                    c2 = "".join(c2)
+                    ext = "".join(rnd.choice(alpha) for _ in range(oh))
+                    a, b = [(ext + core, c2), (core + ext, c2), (core, ext + c2), (core, c2 + ext)][side]
+                    for (k, l) in ((1, 1), (1, 2), (2, 1), (2, 2), (2, 3), (3, 2)):
+                        pens = [-1.0, -1.0, -1.0] if (k + l + side) % 2 else [6.0, 2.0, 0.5]
+                        cases_.append({"a": a, "b": b, "kind": kind, "type": types[(k + l) % 2], "pens": pens, "k": k, "l": l, "threads": 1 + (k + l) % 3,
+                                       "a_first": bool((k + side) % 2)})
+    if tier == "quick":
+        cases_ = cases_[::2]
+    with ThreadPoolExecutor(max_workers=12) as ex:
+        res = list(ex.map(check, cases_))
+    out = []
+    for c, r in zip(cases_, res):
+        if r["status"] == "violation" and r.get("finding") and engine.known_active(r["finding"]):
+            stats.excluded_known[r["finding"]] += 1
+            stats.evaluations += 1
+            continue
+        stats.record(c, r)
+        stats.classes["overhang_grid"] += 1
+        if r["status"] == "violation":
+            out.append({"case": c, "detail": r["detail"], "kind": r.get("kind")})
+    return out
